@@ -226,6 +226,8 @@ func VerifC16Verdict() {
 			r.cidr = "any"
 		case 8:
 			r.groups, r.host = []string{"g2"}, "h2"
+		case 10:
+			r.cidr = "10.1.0.0/16"
 		default:
 			r.host, r.cidr = "h1", "10.1.0.0/16"
 		}
